@@ -367,6 +367,11 @@ func ovSpecs(run *ev.Run, j int) (a, b *spec, shape int) {
 	if ovShapes[shape][1] && (opB == opCC || opB == opIntrospect) {
 		authB = []int{authBasic, authPost, authJWT}[r.IntN(3)] // (no public clients there)
 	}
+	if ovShapes[shape][1] && isTokenOp(opA) && strayA {
+		// (the stray dimension means nothing on the token endpoint: that half of the cells has an in-between request
+		// which every grant of both routers serves)
+		authB = authBasic
+	}
 	b = ovSpec(r, idx+1, opB, ovShapes[shape][1], authB, r.IntN(2) == 0)
 	// one world per pair: the first three passes over the product run with everything enabled (a conforming request is
 	// then served for certain), every fourth pass keeps the provider flags drawn for the parked request
@@ -391,25 +396,35 @@ type ovItem struct {
 	as, bs           []*oreq // fresh requests per yield point (nil: the request consumes nothing and is sent again)
 }
 
-// pass 1: both requests alone (A's run also lists its yield points)
-func ovAlone(run *ev.Run, j, router int, pl pool) *ovItem {
+// pass 0 (nobody is registered with sched): the world, the two registrations, their material and requests
+func ovSetup(run *ev.Run, j, router int, pl pool) *ovItem {
 	sa, sb, shape := ovSpecs(run, j)
 	it := &ovItem{j: j, router: router, shape: shape, sa: sa, sb: sb}
-	rn := opdrv.RouterNames[router]
 	wc, err := pl.getKeyed(sa, ovSigningKey())
 	if err != nil {
 		run.HarnessBug("cannot build world " + sa.cfgKey() + ": " + err.Error())
 		return nil
 	}
 	it.wc = wc
-	w := wc.w
-	st := w.Store
-	st.Arm(nil)
-	defer func() { st.SetJournal(false); st.ResetJournal() }()
+	wc.w.Store.Arm(nil)
 	it.a, it.b = ovPrepare(run, wc, router, sa, "parked"), ovPrepare(run, wc, router, sb, "in-between")
 	if it.a == nil || it.b == nil {
 		return nil
 	}
+	return it
+}
+
+// pass 1: both requests alone (A's run also lists its yield points); nil = the pair is not overlapped
+func ovAlone(run *ev.Run, it *ovItem) *ovItem {
+	if it == nil {
+		return nil
+	}
+	router, sa, sb, shape := it.router, it.sa, it.sb, it.shape
+	rn := opdrv.RouterNames[router]
+	w := it.wc.w
+	st := w.Store
+	st.Arm(nil)
+	defer func() { st.SetJournal(false); st.ResetJournal() }()
 	var respA, respB *opdrv.Resp
 	st.ResetJournal()
 	st.SetJournal(true)
@@ -583,7 +598,7 @@ func ovOverlap(run *ev.Run, it *ovItem) {
 	}
 }
 
-// overlapPart runs pairs [from, to) through the three passes (in chunks, so that the prepared requests of a thorough
+// overlapPart runs pairs [from, to) through the four passes (in chunks, so that the prepared requests of a thorough
 // run do not pile up); pools[w] is the world pool of worker w (the partition of ev.Parallel is the same in every pass).
 func overlapPart(run *ev.Run, from, to int, pools []pool) {
 	for base := from; base < to; base += ovProduct {
@@ -595,7 +610,8 @@ func overlapPart(run *ev.Run, from, to int, pools []pool) {
 			}
 			return pools[worker]
 		}
-		ev.Parallel(2*cnt, 0, func(worker, i int) { items[i] = ovAlone(run, base+i/2, i%2, poolOf(worker)) })
+		ev.Parallel(2*cnt, 0, func(worker, i int) { items[i] = ovSetup(run, base+i/2, i%2, poolOf(worker)) })
+		ev.Parallel(2*cnt, 0, func(worker, i int) { items[i] = ovAlone(run, items[i]) })
 		ev.Parallel(2*cnt, 0, func(worker, i int) { ovMint(run, items[i]) })
 		ev.Parallel(2*cnt, 0, func(worker, i int) { ovOverlap(run, items[i]) })
 	}
